@@ -33,18 +33,16 @@ noncomputable abbrev dumpOfR (net : Net ι ℝ) (sd : ℝ) (cls : List (Cluster 
 
 /-- `Problem.dense` of a row with distinct columns in `1..n`: entry `j` is the sum of the stored values under column
     `j + 1` (at most one) -/
-theorem rowDense_eq_sum (n : Nat) (l : List (Nat × ℝ)) (hnd : (l.map (·.1)).Nodup) (hr : ∀ cv ∈ l, 1 ≤ cv.1 ∧ cv.1 ≤ n)
+theorem rowDense_eq_sum (n : Nat) (l : List (Nat × ℝ)) (hr : ∀ cv ∈ l, 1 ≤ cv.1 ∧ cv.1 ≤ n)
     (j : Nat) (hj : j < n) :
     Dn.vget (rowDense n l) j = ((l.filter fun cv => cv.1 = j + 1).map (·.2)).sum := by
   induction l using List.reverseRecOn with
   | nil =>
     rw [rowDense_zero n [] j (by simp)]; simp
   | append_singleton l cv ih =>
-    rw [List.map_append, List.nodup_append] at hnd
-    obtain ⟨hnd1, _, hdis⟩ := hnd
     have hr1 : ∀ cv' ∈ l, 1 ≤ cv'.1 ∧ cv'.1 ≤ n := fun cv' h => hr cv' (by simp [h])
     obtain ⟨hc1, hc2⟩ := hr cv (by simp)
-    rw [rowDense_snoc, vget_set, List.filter_append, List.map_append, List.sum_append, ← ih hnd1 hr1]
+    rw [rowDense_snoc, vget_set, List.filter_append, List.map_append, List.sum_append, ← ih hr1]
     by_cases h : cv.1 - 1 = j
     · have hcv : cv.1 = j + 1 := by omega
       rw [if_pos ⟨h, by rw [rowDense_size]; exact hj⟩, h]
@@ -72,9 +70,9 @@ theorem dump_A (hrows : RowsOK (dumpOfR net sd cls)) :
     (dumpOfR net sd cls).A = designOf (bookOf net (nobsOf cls)).idx.cols (netEqsR net (nobsOf cls)) := by
   funext i j
   have hi : i.val < (netEqsR net (nobsOf cls)).length := i.isLt
-  obtain ⟨hnd, hr⟩ := hrows i.val i.isLt
+  have hr := hrows i.val i.isLt
   show Dn.mget (dumpOfR net sd cls).dense i.val j.val = _
-  rw [mget_dense, rowDense_eq_sum _ _ hnd hr j.val j.isLt, dump_rows_getD net sd cls i.val hi]
+  rw [mget_dense, rowDense_eq_sum _ _ hr j.val j.isLt, dump_rows_getD net sd cls i.val hi]
   unfold designOf matOfRows
   simp only [List.filter_map, List.map_map]
   rfl
